@@ -9,6 +9,7 @@ import (
 	"github.com/feichai0017/NoKV/lsm/flush"
 	"github.com/feichai0017/NoKV/manifest"
 	"github.com/feichai0017/NoKV/utils"
+	"github.com/feichai0017/NoKV/verifhook"
 	"github.com/feichai0017/NoKV/vfs"
 	"github.com/feichai0017/NoKV/wal"
 )
@@ -351,6 +352,9 @@ func NewLSM(opt *Options, walMgr *wal.Manager) *LSM {
 
 // StartCompacter _
 func (lsm *LSM) StartCompacter() {
+	if verifhook.Enabled("lsm.no-background-compaction") {
+		return
+	}
 	n := lsm.option.NumCompactors
 	if n <= 0 {
 		n = 1
@@ -602,6 +606,7 @@ func (lsm *LSM) startFlushWorkers(n int) {
 				if !ok {
 					return
 				}
+				verifhook.Yield(lsm, "lsm.flush.next")
 				mt, _ := task.Data.(*memTable)
 				if mt == nil {
 					if err := lsm.flushMgr.Update(task.ID, flush.StageRelease, nil, errors.New("nil memtable")); err != nil {
